@@ -84,7 +84,7 @@ def strategy(tier):
             n = draw(st.integers(1 if module in ("LinSolve", "Inverse") else 2, nmax))
             c["n"] = n
             if src == "class":
-                c["kind"] = draw(st.sampled_from(MATRIX_KINDS))
+                c["kind"] = draw(st.sampled_from(MATRIX_KINDS + ["herm_tinydiag_indef"]))
             elif src == "decoupled":
                 # per dof: 0 coupled, 1 row zeroed, 2 column zeroed, 3 both (= Dirichlet-style)
                 c["dec"] = draw(st.lists(st.sampled_from([0, 0, 1, 2, 3]), min_size=n, max_size=n))
@@ -140,7 +140,7 @@ def _block_matrix(kind, n, rng, cplx, cond, fidx):
         A[np.ix_(fidx, ridx)] = C
         if kind == "complex_sym":
             A[np.ix_(ridx, fidx)] = C.T
-        elif kind in ("sym_indef", "herm_indef", "herm_posdiag_indef"):     # Hermitian classes (real: symmetric)
+        elif kind in ("sym_indef", "herm_indef", "herm_posdiag_indef", "herm_tinydiag_indef"):   # Hermitian classes
             A[np.ix_(ridx, fidx)] = C.conj().T
         else:
             A[np.ix_(ridx, fidx)] = rand_unit(rng, (nr, nf), cplx) * (1.5 / np.sqrt(n))
